@@ -237,7 +237,7 @@ class Env:
                     for used in names_loaded(value):
                         if env.counts.get(used, 0) > 1 or (used in env.params and env.counts.get(used, 0) > 0):
                             # a rebound name is harmless when every rebinding lies before this definition (straight-line order)
-                            if not (env.last_bind.get(used, 0) < env.def_line.get(n.id, 0) and used not in env.aug):
+                            if not (env.last_bind.get(used, 0) < env.def_line.get(n.id, 0)):
                                 return n
                     return env.expand(value, depth + 1, skip, alias_only)
                 return n
